@@ -9,7 +9,7 @@ from vlib import core, e2e, text_oracles
 from vlib.coord_common import first_diff
 from vlib.props import C08
 
-MODS = ['S4V.Props.StreamSpec']
+MODS = ['S4V.Props.StreamSpec', 'S4V.Props.StreamSearchSpec']
 LEVEL_NOTE = ("Proved over the model of BlockReader::new / read_block / read_block_File{,Gz,Bz2,Lz4,Xz,Tar} / drop_block and the copy loop of "
               "decompress_to_ntf, with a decoder modelled as the decompressed bytes plus an ARBITRARY script of chunk sizes: for every block size >= 1, "
               "every content (empty, one byte, exact multiples) and every chunking, gz, bz2 and lz4 assemble exactly the plain file's blocks; xz (split in new, "
@@ -23,7 +23,23 @@ LEVEL_NOTE = ("Proved over the model of BlockReader::new / read_block / read_blo
               "ustar/gnu/pax) and comparing every returned block (length + hash), filesz, blocks_highest and blocks_read count with the model, for in-order, "
               "step-back, repeated and gapped request orders. The real decoders' chunk sizes are not observed (that needs a patched reader): the theorems "
               "cover all chunkings and the correspondence checks the assembled result; for lz4 the chunk boundaries are the frame's block boundaries, which "
-              "the harness knows because it built the frame. End to end: stdout(plain) == stdout(container) for text logs, wtmp, evtx and a journal.")
+              "the harness knows because it built the frame. "
+              "Search strategy and drop policy (S4V.Props.StreamSearchSpec): the translator extracts the WHOLE BlockReader::is_streamed_file table (every row, checked to be "
+              "FileType x FileTypeArchive + Unparsable, no wildcard), read_block's dispatch table, which read_block_File* end with the look-back drop (bz2, gz, lz4), the "
+              "choice `linear search iff is_streamed_file()` of find_sysline_{between_datetime_filters,at_datetime_filter}, the condition of disable_drop_data() in "
+              "blockzero_analysis_syslines (streamed && !has_year) and in FixedStructReader::new, and the drop_data guard of drop_block. Proved by `decide` over those generated "
+              "values (a flipped row / negated condition breaks the proof): every (file type, bz2|gz|lz4) row is `true` (C05_streamed_table), hence the search made on such "
+              "a file is the linear one and every request of a linear (non-decreasing) block trace gets the plain file's block for every chunking / block size / content "
+              "(C05_search_on_streamed_ok); a bisection trace on the same reader gets Done for a block that exists (binary_on_stream_loses: why the flag matters); a year-less "
+              "streamed log gets disable_drop_data() and the reader then answers EVERY request order, the backwards year pass in particular (C05_yearless_keep, "
+              "C05_keep_any_order over the model extended with drop_data), while with drop left on the backwards trace loses blocks (backward_on_stream_drop_loses). The block "
+              "traces are a separate abstract model at the level of block offsets (S4V.Model.StreamSearch); one bridge to the SyslineReader model is proved: the offsets at "
+              "which the modelled linear search calls find_sysline are strictly increasing (lsearch_probes_increasing). Tied to the code by component `strm`: the REAL "
+              "is_streamed_file() of a BlockReader opened over a container for each (file type, archive) it can be opened with (Text and FixedStruct x 6 archives; Evtx, Journal, "
+              "Unparsable are refused by BlockReader::new) vs the generated table; the real BlockReader with and without disable_drop_data() under backwards / bisection / "
+              "random request orders vs the model; and the real SyslogProcessor pipeline (stages 0-3 + streaming loop with drop_data_try) over multi-block logs with and "
+              "without a year, with and without -a/-b, in gz/lz4/xz/tar (built by the harness) and bz2 (Python corpus): its messages must equal the plain file's and "
+              "is_drop_data() after stage 1 must equal the generated keepAllBlocks condition. End to end: stdout(plain) == stdout(container) for text logs, wtmp, evtx and a journal.")
 ASSUME = ["the decoders (flate2, bzip2-rs, lz4_flex, lzma-rs, tar) deliver the right bytes in some chunking, or fail; bzip2-rs rejects some valid streams (known finding F23)",
           "single-stream / single-member containers; gzip ISIZE is the true size (< 4 GiB)",
           "tar member lookup by path (process_path_tar) and file-type classification are covered by C15/C16, not here"]
@@ -82,13 +98,38 @@ def make_corpus(ctx):
                 idx.append(('tar', p, raw, 'sub/m.log'))
             k += 1
     open(os.path.join(d, 'index.tsv'), 'w').write('\n'.join('\t'.join(x) for x in idx) + '\n')
+    # multi-block text logs as bz2 for the `strm` component: with a year (linear search on a stream) and
+    # without (disable_drop_data + backwards year pass). Instants in 2023 before the files' mtime.
+    import time as _t
+    sidx = []
+    mt = 1700000000
+    for j in range(ctx.q(4, 12)):
+        yearless = j % 2 == 1
+        t = 1672531200 + rng.below(86400 * 20)
+        out = []
+        for i in range(rng.range(60, 400)):
+            t += rng.pick([0, 1, 1, 2, 30, 600, 7200])
+            g = _t.gmtime(t)
+            head = _t.strftime('%b %e %H:%M:%S', g) if yearless else _t.strftime('%Y-%m-%d %H:%M:%S', g)
+            out.append(('%s host prog[%d]: message %d %s\n' % (head, 100 + i % 7, i, 'x' * rng.below(40))).encode())
+            if rng.below(6) == 0:
+                out.append(b'   continued ' + b'y' * rng.below(30) + b'\n')
+        data = b''.join(out)
+        raw = os.path.join(d, 's%d.raw' % j)
+        open(raw, 'wb').write(data)
+        p = os.path.join(d, 's%d.log.bz2' % j)
+        open(p, 'wb').write(bz2.compress(data, 1 + j % 9))
+        os.utime(p, (mt, mt))
+        sidx.append(('bz2', p, raw, 'n' if yearless else 'y'))
+    open(os.path.join(d, 'index_strm.tsv'), 'w').write('\n'.join('\t'.join(x) for x in sidx) + '\n')
     return d
 
 
 def corr_asm(ctx):
     os.environ['S4H_TMP'] = os.path.join(ctx.work, 'tmp')
     d = make_corpus(ctx)
-    return [core.correspond(ctx, 'asm', ctx.q(2000, 40000), extra=['corpus', d])]
+    return [core.correspond(ctx, 'asm', ctx.q(2000, 40000), extra=['corpus', d]),
+            core.correspond(ctx, 'strm', ctx.q(1200, 12000), extra=['corpus', d])]
 
 
 def run(path, extra=()):
